@@ -213,8 +213,28 @@ def random_case(rng, lang, mode, maxlen, counter):
         seed.append([rng.choice(['keep.txt', 'out.bak'] if mode == 'single' else ['out/unrelated.txt', 'out/sub/deep.txt']), 'junk'])
     elif r < 0.6 and mode == 'multi':
         seed.append(['out/', 'dir'])   # the folder exists and is empty
-    return dict(lang=lang, flags=flags, mode=mode, versions=[render_tree(t) for t in trees],
+    configs = None
+    if lang == 'swift' and rng.random() < 0.35:
+        # the configuration changes between versions too: Swift's CodableVoid constraints / default decorators grow and SHRINK
+        # (seeded C17_c: Codable.swift overwritten in place without truncation keeps the tail of the longer earlier contents)
+        configs = [swift_config(rng) for _ in trees]
+    return dict(lang=lang, flags=flags, mode=mode, versions=[render_tree(t) for t in trees], configs=configs,
                 expected=[expected_files(t, lang) for t in trees], history=make_history(rng, len(trees), maxlen), seed=seed)
+
+
+SWIFT_CONSTRAINTS = [[], ['Equatable'], ['Equatable', 'Hashable'], ['Sendable', 'Equatable', 'Hashable'], ['Sendable']]
+
+
+def swift_config(rng):
+    if rng.random() < 0.2:
+        return None
+    lines = ['[swift]']
+    lines.append('codablevoid_constraints = ' + json.dumps(rng.choice(SWIFT_CONSTRAINTS)))
+    if rng.random() < 0.5:
+        lines.append('default_decorators = ' + json.dumps(rng.choice(SWIFT_CONSTRAINTS)))
+    if rng.random() < 0.3:
+        lines.append('prefix = ' + json.dumps(rng.choice(['', 'OP'])))
+    return '\n'.join(lines) + '\n'
 
 
 def S_(name, fields, unit=False, kind='struct'):
@@ -240,8 +260,8 @@ def directed_cases():
     for lang in LANGS:
         ext = LANGS[lang]['ext']
         for mode in ('single', 'multi'):
-            def case(trees, history, seed=(), flags=None, what=''):
-                out.append(dict(lang=lang, flags=list(LANGS[lang]['flags'] if flags is None else flags), mode=mode, versions=[render_tree(t) for t in trees],
+            def case(trees, history, seed=(), flags=None, what='', configs=None):
+                out.append(dict(lang=lang, flags=list(LANGS[lang]['flags'] if flags is None else flags), mode=mode, versions=[render_tree(t) for t in trees], configs=configs,
                                 expected=[expected_files(t, lang) for t in trees], history=list(history), seed=[list(s) for s in seed], directed=what))
             case([v_base, v_moved, v_renamed, v_added], [0, 0, 1, 1, 2, 3], what='moved / renamed / added')
             case([v_base, v_added], [1, 0, 0, 1, 1, 0], what='crate appears and disappears')
@@ -256,6 +276,10 @@ def directed_cases():
                 case([v_added, v_gen], [0, 1, 1, 0, 0], what='generation fails at the second of three crates')
             if lang == 'kotlin':
                 case([v_base, v_renamed], [0, 0, 1, 1], flags=[], what='kotlin without a package: no file header')
+            if lang == 'swift':
+                long_, short_ = '[swift]\ncodablevoid_constraints = ["Equatable", "Hashable"]\n', '[swift]\ncodablevoid_constraints = ["Equatable"]\n'
+                case([v_unit, v_unit], [0, 1, 1, 0, 0, 1], configs=[long_, short_], what='same sources, CodableVoid constraints shrink and grow again (Codable.swift gets shorter)')
+                case([v_unit, v_unit, v_base], [0, 0, 1, 2, 1, 1], configs=[long_, None, short_], what='CodableVoid constraints come and go with the configuration file')
             if lang == 'swift' and mode == 'multi':
                 case([v_unit, v_base], [0, 0, 1, 0], seed=[['out/Codable.swift', 'codable_nonl']], what='Codable.swift pre-seeded with the contents minus the newline (stale: rewritten once)')
                 case([v_unit, v_base], [0, 0, 1, 0, 0], seed=[['out/Codable.swift', ['fresh', 0]]], what='Codable.swift pre-seeded with the contents and the newline (up to date: never touched)')
@@ -273,9 +297,11 @@ def snapshot(root):
     return out
 
 
-def run_cli(case, src, loc, cwd):
+def run_cli(case, src, loc, cwd, cfg=None):
     ext = LANGS[case['lang']]['ext']
     dest = ['-o', str(loc / f'out.{ext}')] if case['mode'] == 'single' else ['-d', str(loc / 'out')]
+    if cfg is not None:      # the version's own typeshare.toml (the configuration is one of the run's inputs)
+        dest = ['-c', str(cfg)] + dest
     env = {k: v for k, v in os.environ.items() if not k.startswith('TYPESHARE_VERIF')}
     p = subprocess.run(['timeout', '30', str(vf.TYPESHARE), '--lang', case['lang']] + case['flags'] + dest + [str(src)],
                        capture_output=True, text=True, cwd=cwd, env=env)
@@ -298,11 +324,16 @@ def execute(case, root):
             p.parent.mkdir(parents=True, exist_ok=True)
             p.write_text(txt)
         (root / f'v{v}').mkdir(exist_ok=True)
+    cfgs = {}
+    for v, txt in enumerate(case.get('configs') or []):
+        if txt is not None:
+            cfgs[v] = root / f'cfg{v}.toml'
+            cfgs[v].write_text(txt)
     fresh = []
     for v in range(len(case['versions'])):
         loc = root / f'fresh{v}'
         loc.mkdir()
-        rc, kind, err = run_cli(case, root / f'v{v}', loc, root)
+        rc, kind, err = run_cli(case, root / f'v{v}', loc, root, cfgs.get(v))
         fresh.append(dict(rc=rc, kind=kind, err=err, files={k: b for k, (b, _) in snapshot(loc).items()}))
     loc = root / 'loc'
     loc.mkdir()
@@ -329,7 +360,7 @@ def execute(case, root):
     for i, v in enumerate(case['history'], 1):
         for rel in snapshot(loc):
             os.utime(loc / rel, ns=(OLD_NS, OLD_NS))
-        rc, kind, err = run_cli(case, root / f'v{v}', loc, root)
+        rc, kind, err = run_cli(case, root / f'v{v}', loc, root, cfgs.get(v))
         snap = snapshot(loc)
         new = {}
         written = []
@@ -416,7 +447,7 @@ def describe(state):
 def judge(chk, case, ex, mres, notes, cid, corr_broken):
     """verdict per run, DESIGN.md section 7"""
     hist_key = hashlib.sha1()
-    hist_key.update(json.dumps([case['lang'], case['flags'], case['mode'], case['seed']]).encode())
+    hist_key.update(json.dumps([case['lang'], case['flags'], case['mode'], case['seed'], case.get('configs')]).encode())
     prev_state, prev_v = ex['init'], None
     for i, (r, m) in enumerate(zip(ex['runs'], mres), 1):
         chk.evaluations += 1
